@@ -222,6 +222,8 @@ theorem reg_stepCore {P : Params} {S : SpecSt} {M : St} (h : Inv S M) (e : Ev) {
     · exact reg_upd_other hj hd _ rfl
   | lookBegin j x => exact hd
   | lookEnd j x => exact hd
+  | reqBegin k j x => exact hd
+  | reqEnd k j x => exact hd
   | tick dt => exact hd
 
 theorem stepOk_hs {M : St} {c : Conn} {ok : Bool} (h : stepOk M (.hs c ok) = true) :
@@ -276,6 +278,8 @@ theorem now_stepCore_le (P : Params) (M : St) (e : Ev) : M.now ≤ (stepCore P M
   | shutdown n => show M.now ≤ (shutdownNode M n).now; unfold shutdownNode; split <;> exact Nat.le_refl _
   | lookBegin j x => exact Nat.le_refl _
   | lookEnd j x => exact Nat.le_refl _
+  | reqBegin k j x => exact Nat.le_refl _
+  | reqEnd k j x => exact Nat.le_refl _
   | tick dt => exact Nat.le_add_right _ _
 
 /-- Only a tick moves the clock. -/
@@ -309,6 +313,8 @@ theorem now_stepCore_eq (P : Params) (M : St) (e : Ev) (he : ∀ dt, e ≠ .tick
   | shutdown n => show (shutdownNode M n).now = _; unfold shutdownNode; split <;> rfl
   | lookBegin j x => rfl
   | lookEnd j x => rfl
+  | reqBegin k j x => rfl
+  | reqEnd k j x => rfl
   | tick dt => exact absurd rfl (he dt)
 
 /-! ## `RSInv.sound` across one event -/
@@ -370,6 +376,8 @@ theorem RSInv.sound_step {P : Params} {S : SpecSt} {M : St} (h : Inv S M) (hr : 
   | hsTunnel c ok => exact frame rfl (fun x hx => hx) (fun d _ hdr => absurd hdr (by simp [drops]))
   | lookBegin j x => exact frame rfl (fun x hx => hx) (fun d _ hdr => absurd hdr (by simp [drops]))
   | lookEnd j x => exact frame rfl (fun x hx => hx) (fun d _ hdr => absurd hdr (by simp [drops]))
+  | reqBegin k j x => exact frame rfl (fun x hx => hx) (fun d _ hdr => absurd hdr (by simp [drops]))
+  | reqEnd k j x => exact frame rfl (fun x hx => hx) (fun d _ hdr => absurd hdr (by simp [drops]))
   | tick dt => exact frame rfl (fun x hx => hx) (fun d _ hdr => absurd hdr (by simp [drops]))
   | shutdown n =>
     by_cases hdn : n ∈ M.down
@@ -584,6 +592,8 @@ theorem RSInv.live_step {P : Params} {S : SpecSt} {M : St} (h : Inv S M) (hr : R
   | hsTunnel c ok => exact frame rfl rfl rfl (fun d => by simp [drops])
   | lookBegin j x => exact frame rfl rfl rfl (fun d => by simp [drops])
   | lookEnd j x => exact frame rfl rfl rfl (fun d => by simp [drops])
+  | reqBegin k j x => exact frame rfl rfl rfl (fun d => by simp [drops])
+  | reqEnd k j x => exact frame rfl rfl rfl (fun d => by simp [drops])
   | tick dt =>
     intro x c u hl
     rw [hL] at hl
